@@ -30,7 +30,7 @@ class Source:
                 raw = open(p, encoding='utf-8', errors='surrogateescape').read()
             except OSError as e:
                 raise ExtractionBreak('cannot read %s: %s' % (p, e))
-            self._cache[rel] = lex.strip_comments(raw)
+            self._cache[rel] = lex.inline_lambdas(lex.strip_comments(raw))
         return self._cache[rel]
 
 
